@@ -26,7 +26,9 @@ def representative(rnd, per_group=1, cap=None):
     return out
 
 
-SKIP_LINES = ["", "; just a comment", "label:", "section .text", "global f", "   ", "\t; indented comment", "SECTION .text", "GLOBAL test", "my_label: ; with comment"]
+SKIP_LINES = ["", "; just a comment", "label:", "section .text", "global f", "   ", "\t; indented comment", "SECTION .text", "GLOBAL test", "my_label: ; with comment",
+              "\t", " \t ", ";", ";;; mov rax, rbx", "  label_2:", ".L1:", "_start:", "L1: ", "Section .data", "section .text align=16", "global _start, foo", "GLOBAL\tmain",
+              "section\t.text", "\tglobal f", "   section .bss", "loop:", "mov:", "rax:", "x1: ; c", "label:\t", "; section global label: [rax] 0x10"]
 
 
 def accepted_alone(binary, lines, mask="211"):
